@@ -33,21 +33,22 @@ package interpreter
 //@   assigns  nothing
 
 //@ -- Array / Object: evaluate every second child, in order, through EvaluateNode; the first error aborts. The
-//@ -- children evaluated must be well-formed single nodes (a child of a non-terminal is never a list of alternatives).
+//@ -- children must be well-formed single nodes (a child of a non-terminal is never a list of alternatives); the
+//@ -- loop invariant of Array does not mention the stride, so that an equivalent loop over the result verifies too.
 //@ pure func evalOK(c parsley.Node) bool = c != nil && parsley.NodeOK(c) && !typeis[ast.NodeList](c)
 //@ func Array() (r ast.InterpreterFunc)
 //@   ensures  r != nil
 //@   assigns  nothing
 //@ closure Array$1(userCtx interface{}, node parsley.NonTerminalNode) (v interface{}, err parsley.Error)
 //@   requires node != nil && len(node.Children()) <= 1 << 40
-//@   requires forall k int :: 0 <= k && k < len(node.Children()) && k % 2 == 0 ==> evalOK(node.Children()[k])
+//@   requires forall k int :: 0 <= k && k < len(node.Children()) ==> evalOK(node.Children()[k])
 //@   ensures  [value-or-error;C04,C13] v == nil || err == nil
 //@   ensures  [array;C13] err == nil ==> typeis[[]interface{}](v) && len(v.([]interface{})) == (old(len(node.Children())) + 1) / 2 && fresh(v.([]interface{}))
 //@   ensures  err != nil ==> err.Pos() >= 0
 //@   assigns  fields[parsley.Node]("children")
 //@ loop 1 (i int, nodes []parsley.Node, res []interface{})
-//@   invariant 0 <= i && i % 2 == 0 && i <= len(nodes) + 1 && same(nodes, old(node.Children())) && fresh(res) && len(res) == (len(nodes) + 1) / 2
-//@   invariant forall k int :: 0 <= k && k < len(nodes) && k % 2 == 0 ==> evalOK(nodes[k])
+//@   invariant 0 <= i && i <= len(nodes) + 1 && same(nodes, old(node.Children())) && fresh(res) && len(res) == (len(nodes) + 1) / 2
+//@   invariant forall k int :: 0 <= k && k < len(nodes) ==> evalOK(nodes[k])
 
 //@ -- an object's entries: non-terminals of (at least) key, separator, value. Object panics by design when a key does
 //@ -- not evaluate to a string: what user code will compute cannot be stated before the call, so that one type
